@@ -45,6 +45,19 @@ def _unpacked(ctx, func, name_node):
                          ctx=ast.Load())
 
 
+def _consumes(v):
+    """The expression takes an item out of a container / iterator: a name
+    bound to it is that item, not a term that can be re-evaluated."""
+    for n in ast.walk(v):
+        if isinstance(n, ast.Call):
+            if isinstance(n.func, ast.Attribute) and n.func.attr in (
+                    "pop", "popitem", "popleft", "__next__"):
+                return True
+            if isinstance(n.func, ast.Name) and n.func.id == "next":
+                return True
+    return False
+
+
 def _subst(ctx, func, expr, depth, unpack=False):
     """Rebuild `expr` with single-def names replaced (non-destructive)."""
     if depth <= 0:
@@ -53,7 +66,7 @@ def _subst(ctx, func, expr, depth, unpack=False):
         v = single_def(ctx, func, expr)
         if v is None and unpack:
             v = _unpacked(ctx, func, expr)
-        if v is not None:
+        if v is not None and not _consumes(v):
             return _subst(ctx, func, v, depth - 1, unpack)
         return expr
     if isinstance(expr, (ast.Lambda, ast.Constant)) or expr is None:
@@ -526,6 +539,31 @@ def forall_form(ctx, func):
                 while isinstance(t, ast.UnaryOp) and isinstance(t.op, ast.Not):
                     t, pol = t.operand, not pol
                 return (body[0].iter, body[0].target.id, t, pol, body[0])
+    return None
+
+
+def seq_segments(e):
+    """A tuple/list-valued expression as a sequence of segments, whatever
+    mixture of literals, `+`, tuple()/list() and comprehensions spells it:
+    [('elt', text) | ('map', element text with the item variable written
+    `$`, iterable text)], or None.  `tuple([a] + [f(x) for x in xs])` and
+    `(a,) + tuple(f(x) for x in xs)` have the same segments."""
+    import re as _re
+    if isinstance(e, (ast.Tuple, ast.List)):
+        if any(isinstance(x, ast.Starred) for x in e.elts):
+            return None
+        return [("elt", text(x).replace(" ", "").replace('"', "'")) for x in e.elts]
+    if isinstance(e, ast.BinOp) and isinstance(e.op, ast.Add):
+        l, r = seq_segments(e.left), seq_segments(e.right)
+        return None if l is None or r is None else l + r
+    if isinstance(e, ast.Call) and isinstance(e.func, ast.Name) and \
+            e.func.id in ("tuple", "list") and len(e.args) == 1 and not e.keywords:
+        return seq_segments(e.args[0])
+    if isinstance(e, (ast.ListComp, ast.GeneratorExp)) and len(e.generators) == 1 and \
+            not e.generators[0].ifs and isinstance(e.generators[0].target, ast.Name):
+        v = e.generators[0].target.id
+        elt = _re.sub(r"(?<![\w.])%s\b" % _re.escape(v), "$", text(e.elt).replace(" ", ""))
+        return [("map", elt, text(e.generators[0].iter).replace(" ", ""))]
     return None
 
 
